@@ -39,7 +39,11 @@ type c11Case struct {
 }
 
 // all names live in this small universe (same base names in different directories)
-var c11Names = []string{"/x.tpl", "/y.tpl", "/d1/x.tpl", "/d1/y.tpl", "/d1/d2/x.tpl", "/d1/d2/z.tpl", "/e/y.tpl", "/e/z.tpl"}
+// the last two virtual names coincide with real files of the machine (written by c11Canary): a
+// rooted name is a name for the loaders, not a path of the operating system
+var c11Names = []string{"/x.tpl", "/y.tpl", "/d1/x.tpl", "/d1/y.tpl", "/d1/d2/x.tpl", "/d1/d2/z.tpl", "/e/y.tpl", "/e/z.tpl", c11RealDir + "/x.tpl", c11RealDir + "/d1/y.tpl"}
+
+const c11RealDir = "/tmp/verif-c11-canary"
 
 var c11CanaryOnce sync.Once
 
@@ -52,6 +56,15 @@ func c11Canary() {
 			p := filepath.Join(dir, strings.TrimPrefix(n, "/"))
 			_ = os.MkdirAll(filepath.Dir(p), 0o755)
 			_ = os.WriteFile(p, []byte("CANARY("+n+"){{ 7 }}"), 0o644)
+			if strings.HasPrefix(n, c11RealDir) {
+				// the same name as an absolute path of the real file system (several workers may do
+				// this at once: write aside, then rename)
+				_ = os.MkdirAll(filepath.Dir(n), 0o755)
+				tmp := fmt.Sprintf("%s.%d", n, os.Getpid())
+				if os.WriteFile(tmp, []byte("CANARY-ABS("+n+"){{ 7 }}"), 0o644) == nil {
+					_ = os.Rename(tmp, n)
+				}
+			}
 		}
 		_ = os.Chdir(dir)
 	})
@@ -601,6 +614,10 @@ func genC11(t *rapid.T) *c11Case {
 					fallthrough
 				default: // tpl or missing
 					kind := pickW(t, "refkind", []string{"include", "lazy", "ssiparsed"}, []int{5, 2, 1})
+					if roleOf(target) == "missing" && drawBool(t, "missingkind") {
+						// a name no loader serves can be asked for by every tag
+						kind = pick(t, "refkind2", []string{"ssi", "import", "ssiparsed"})
+					}
 					ni := c11Item{Kind: kind}
 					switch kind {
 					case "include":
@@ -615,10 +632,10 @@ func genC11(t *rapid.T) *c11Case {
 						}
 						ni.Text = fmt.Sprintf("n%d", idx)
 						ni.IfExists = drawInt(t, 0, 2, "ifexists") == 0
-					case "ssiparsed":
+					case "ssiparsed", "ssi", "import":
 						ni.Ref = c11WriteRef(t, name, target)
 					}
-					if kind != "ssiparsed" && drawBool(t, "withpair") {
+					if (kind == "include" || kind == "lazy") && drawBool(t, "withpair") {
 						ni.Pair = fmt.Sprintf("P%d", len(items))
 						ni.Only = drawBool(t, "only")
 					}
@@ -629,13 +646,60 @@ func genC11(t *rapid.T) *c11Case {
 			cs.Loaders[l][name] = f
 		}
 	}
+	// if_exists forgives only that the named template itself is missing: now and then give the
+	// target of an if_exists include a dangling reference of its own
+	if len(missing) > 0 && drawInt(t, 0, 3, "dangling") == 0 {
+		var guarded []string
+		for l := range cs.Loaders {
+			for name, f := range cs.Loaders[l] {
+				for _, it := range f.Items {
+					switch {
+					case it.Kind == "include" && it.IfExists:
+						guarded = append(guarded, vfsAbs(name, it.Ref))
+					case it.Kind == "lazy" && it.IfExists:
+						var idx int
+						fmt.Sscanf(it.Text, "n%d", &idx)
+						guarded = append(guarded, c11Names[idx])
+					case it.Kind == "lazyloop":
+						guarded = append(guarded, it.Names...)
+					}
+				}
+			}
+		}
+		sortStringsInPlace(guarded)
+		var cands []string
+		for _, g := range guarded {
+			if roleOf(g) == "tpl" && (len(cands) == 0 || cands[len(cands)-1] != g) {
+				cands = append(cands, g)
+			}
+		}
+		if len(cands) > 0 {
+			victim := pick(t, "victim", cands)
+			gone := pick(t, "gone", missing)
+			kind := pick(t, "danglingkind", []string{"ssi", "ssiparsed", "include", "import", "lazy"})
+			ni := c11Item{Kind: kind, Ref: gone}
+			if kind == "lazy" {
+				for k, nn := range c11Names {
+					if nn == gone {
+						ni.Text = fmt.Sprintf("n%d", k)
+					}
+				}
+			}
+			for l := range cs.Loaders {
+				if f, ok := cs.Loaders[l][victim]; ok {
+					f.Items = append(f.Items, ni)
+					cs.Loaders[l][victim] = f
+				}
+			}
+		}
+	}
 	cs.Root = used[0]
 	return cs
 }
 
 var _ = register(&propSpec{
 	ID:    "C11.compose",
-	Rule:  "virtual file trees (8 names with equal base names in different directories up to 3 deep), 1-3 loaders serving overlapping names with different contents, acyclic reference graphs over include (static / lazy, with pair, only, if_exists), extends (+ block override), import (+ call), ssi plain (content never parsed) and ssi parsed; names written rooted, relative (incl. ..) and rooted with a detour; references to names no loader serves; includer variables (context, set, with pair) probed in every file. The worker's working directory holds canary files at the same relative paths, served by no loader. Oracle: reference composition (first loader having a name wins; relative names resolve against the referring file; missing => error, or nothing with if_exists; only hides includer variables), the loaders' Get logs contain no name outside the referenced set and everything used was fetched, no canary text ever appears. Non-trivial: loaders disagree on a name, or a relative reference crosses directories, or only / if_exists present.",
+	Rule:  "virtual file trees (10 names with equal base names in different directories up to 3 deep), 1-3 loaders serving overlapping names with different contents, acyclic reference graphs over include (static / lazy, with pair, only, if_exists), extends (+ block override), import (+ call), ssi plain (content never parsed) and ssi parsed; names written rooted, relative (incl. ..) and rooted with a detour; references to names no loader serves (by every tag; also from inside the target of an if_exists include, which if_exists does not forgive); includer variables (context, set, with pair) probed in every file. The worker's working directory holds canary files at the same relative paths, and two of the virtual names also exist as absolute paths of the real file system (canary content); none of them is served by a loader. Oracle: reference composition (first loader having a name wins; relative names resolve against the referring file; missing => error, or nothing with if_exists; only hides includer variables), the loaders' Get logs contain no name outside the referenced set and everything used was fetched, no canary text ever appears. Non-trivial: loaders disagree on a name, or a relative reference crosses directories, or only / if_exists present.",
 	Gen:   func(t *rapid.T) any { return genC11(t) },
 	New:   func() any { return &c11Case{} },
 	Check: checkC11,
